@@ -75,8 +75,11 @@ def gen_tasks(rng, tier):
             for okind in ("ndarray", "tensor"):
                 tasks.append({"fn": fn, "group": "binary", "operands": [T(dt, [3]), T("float64", [3])], "domain": dom, "track": True, "spell": rng.choice(["mg", "np"]), "seed": len(tasks),
                               "opts": {"out": {"kind": okind, "shape": [3], "dtype": "float64"}, "where": {"mask": [True, False, True], "shape": [3]}}})
-                tasks.append({"fn": fn, "group": "binary", "operands": [T(dt, [3]), T("float64", [3])], "domain": dom, "track": True, "spell": "mg", "seed": len(tasks),
-                              "opts": {"out": {"kind": okind, "shape": [3], "dtype": "float64"}, "where": {"mask": [True, False, True], "shape": [3]}, "dtype": "float64"}})
+                for spell in ("mg", "np"):
+                    tasks.append({"fn": fn, "group": "binary", "operands": [T(dt, [3]), T(dt, [3])], "domain": dom, "track": True, "spell": spell, "seed": len(tasks),
+                                  "opts": {"out": {"kind": okind, "shape": [3], "dtype": "float64"}, "where": {"mask": [True, False, True], "shape": [3]}, "dtype": "float64"}})
+                tasks.append({"fn": fn, "group": "binary", "operands": [T(dt, [3]), T(dt, [3])], "domain": dom, "track": True, "spell": "mg", "seed": len(tasks),
+                              "opts": {"where": {"mask": [True, False, True], "shape": [3]}, "dtype": "float64"}})
     # operators
     for fn in ("add", "subtract", "multiply", "divide", "power", "matmul"):
         for d1, d2 in itertools.product(["float32", "float64", "int8", "int64"], ["float32", "float64", "int32"]):
